@@ -63,7 +63,8 @@ def pin(index=None):
 
 def _pool_init():
     ident = multiprocessing.current_process()._identity
-    pin(ident[0] if ident else None)
+    # (offset by the parent's pid: several checks running side by side must not pile their k-th workers onto the same CPU)
+    pin(os.getppid() * 5 + ident[0] if ident else None)
 
 
 def jsonable(o):
